@@ -17,10 +17,10 @@ impl<S: Storage> DropExecutor<S> {
     #[try_stream(boxed, ok = DataChunk, error = ExecutorError)]
     pub async fn execute(self) {
         for table in self.tables {
-            if self.catalog.get_table(&table).unwrap().is_view() {
-                self.catalog.drop_table(table);
-            } else {
-                self.storage.drop_table(table).await?;
+            match self.catalog.get_table(&table) {
+                Some(t) if t.is_view() => self.catalog.drop_table(table),
+                // (if a concurrent session has dropped the table already, the storage reports it)
+                _ => self.storage.drop_table(table).await?,
             }
         }
         yield DataChunk::single(1);
